@@ -25,6 +25,7 @@ import collections
 import math
 import random as _random
 import sys
+import time
 
 from common.coqlit import Err
 from common.harness import CaseTimeout, _limit
@@ -50,7 +51,10 @@ RULE = ('cases (op, data, numSlices, seed, params, draw streams): seeds 0..N and
         'None as key / value of pairs) under every operation; every operation applied directly to 17 kinds of parent '
         '(generator/range input, mapPartitions(sorted|list|tuple|lambda), mapPartitionsWithIndex, glom().flatMap, union, '
         'coalesce, zip, cartesian, persisted, map, filter); every operation under a transient upstream task fault '
-        '(partition 0 / last / random, after 0 / 1 / middle / last-1 / all elements); one seeded sample seen through ten '
+        '(partition 0 / last / random, after 0 / 1 / middle / last-1 / all elements); takeSample for every n in 0..size+3 '
+        'on unevenly filled partitions (filters 4+1+0, sparse, tail only, one element; flatMap expanding one partition; '
+        'uneven union), seeds 0..200 and rare seeds (first draw < exp(-10): empty first sample, re-sampling loop) on one- '
+        'and two-element datasets; one seeded sample seen through ten '
         'views (collect, count, map, filter, persist twice, glom, mapValues, union, second-level sample); every case once with the streams of the real twister (recorded) and '
         'scripted streams with adversarial draws (0.0, 1-2^-53, the fraction, every boundary and its neighbours); '
         'non-trivial = non-empty data and a result that is neither an error nor empty-by-construction; distinct by '
@@ -101,7 +105,9 @@ class MathTap:
 
 
 PARENTS = ['list', 'gen', 'range', 'mp_sorted', 'mp_list', 'mp_lambda_list', 'mpi_list', 'glom_flatmap', 'union',
-           'coalesce', 'zip', 'cartesian', 'cached', 'map', 'cached_mp_list', 'mp_tuple', 'filter_true', 'flaky']
+           'coalesce', 'zip', 'cartesian', 'cached', 'map', 'cached_mp_list', 'mp_tuple', 'filter_true', 'flaky',
+           'filter_head', 'filter_sparse', 'flatmap_expand_one', 'union_uneven', 'filter_tail', 'filter_one']
+UNEVEN = ['filter_head', 'filter_sparse', 'flatmap_expand_one', 'union_uneven', 'filter_tail', 'filter_one']
 FLAKY = PARENTS.index('flaky')
 
 
@@ -157,6 +163,18 @@ def build(sc, data, layout):
         return base.filter(lambda x: True)
     if name == 'flaky':
         return base.mapPartitionsWithIndex(flaky(*layout[3]))
+    # elements spread unevenly over the partitions (positions, not values, decide: data may hold anything)
+    n = len(data)
+    if name in ('filter_head', 'filter_sparse', 'filter_tail', 'filter_one'):
+        keep = {'filter_head': lambda i: i < (5 * n) // 12,            # range(12) on 3 slices: 4 + 1 + 0
+                'filter_sparse': lambda i: i % 7 == 3,                  # most partitions empty
+                'filter_tail': lambda i: i >= n - max(1, n // 4),       # only the last partition(s)
+                'filter_one': lambda i: i == n // 2}[name]
+        return base.zipWithIndex().filter(lambda xi: keep(xi[1])).map(lambda xi: xi[0])
+    if name == 'flatmap_expand_one':
+        return base.zipWithIndex().flatMap(lambda xi: [xi[0]] * 6 if xi[1] == 0 else ([xi[0]] if xi[1] % 5 == 0 else []))
+    if name == 'union_uneven':
+        return sc.parallelize(data[:1], 1).union(sc.parallelize(data[1:], max(1, nsl)))
     raise ValueError(name)
 
 
@@ -279,6 +297,8 @@ class LazyScript(dict):
 
 
 GEN_TIMEOUTS = collections.Counter()
+GEN_SLOW = collections.Counter()
+SLOW_CALL = 1.0          # seconds; a run on these tiny inputs takes well under a millisecond on the unchanged tree
 
 
 def with_parts(data, layout):
@@ -295,8 +315,8 @@ def finish(op, data, nsl, seed, params, script, tag, entropy=0):
     """Run the implementation once to learn which generators it creates and where it evaluates exp/log;
     returns the complete case.  An implementation that does not come back within CALL_LIMIT gives a case tagged
     'timeout' (reported by the oracle); after two of them no more cases of that operation are generated."""
-    if GEN_TIMEOUTS[op] >= 2:
-        return None
+    if GEN_TIMEOUTS[op] >= 2 or GEN_SLOW[op] >= 4:
+        return None          # bounded cost on a tree where the operation hangs or crawls
     if not isinstance(nsl, int) and (len(nsl) == 2 or nsl[2] is None):
         try:
             nsl = with_parts(data, nsl)
@@ -305,7 +325,10 @@ def finish(op, data, nsl, seed, params, script, tag, entropy=0):
         if nsl is None:
             return None
     mt = MathTap()
+    t0 = time.time()
     r = limited(run_tapped, op, data, nsl, seed, params, script, mt, entropy)
+    if time.time() - t0 > SLOW_CALL:
+        GEN_SLOW[op] += 1
     if r is TIMEOUT:
         GEN_TIMEOUTS[op] += 1
         return (op, data, nsl, seed, params, [], [], [], 'timeout')
@@ -592,6 +615,7 @@ def generate(rng, tier):
     quick = tier == 'quick'
     out = []
     GEN_TIMEOUTS.clear()
+    GEN_SLOW.clear()
     fr_no4 = [0.0, 0.01, 0.3, 0.5, 0.99, 1.0]
     fr_re4 = [0.0, 0.5, 1.0, 3.0]
     # ---- None as data: first element of a partition, whole partitions of None, a single None
@@ -656,6 +680,36 @@ def generate(rng, tier):
         else:
             f = rng.choice(fr_re4 if wr else fr_no4)
             both(rng, out, 4, data, nsl, seed, (wr, False, f, rng.randint(0, 40)), [f], f if wr else 0.0)
+    # ---- takeSample on datasets whose elements are spread unevenly over the partitions: every n in 0..size+3
+    for name in UNEVEN:
+        pc = PARENTS.index(name)
+        for data, nsl in (((list(range(12)), 3),) if quick else
+                          ((list(range(12)), 3), (list(range(12)), 4), ([None, 1, 1, 2, None, 3, 5, 8, 13, 21], 3),
+                           (list(range(25)), 6))):
+            lay = with_parts(data, (pc, nsl))
+            if lay is None:
+                continue
+            size = sum(len(p) for p in lay[2])
+            for num in range(0, size + 4):
+                for wr in (False, True):
+                    for seed in ((0, rng.randint(1, 50)) if quick else (0, 1, 2, 3, rng.randint(4, 10 ** 6), None)):
+                        lam = 10.0 if wr else 0.0
+                        both(rng, out, 2, data, lay, seed, (wr, num), [], lam,
+                             scr=(rng.random() < (0.25 if quick else 0.6)))
+    # ---- rare seeds: one- and two-element datasets, with replacement; seeds 0..200 and seeds whose first draw is below
+    # exp(-10) (facts about the twister, re-checked here), where the first Poisson sample is empty and the loop re-samples
+    rare = [sd for sd in (22338, 29036, 30818, 42178, 74887, 152559, 166519, 187916, 188224, 190893, 207172, 297100)
+            if _random.Random(sd).random() < math.exp(-10)]
+    for sd in list(range(0, 201 if not quick else 201, 1 if not quick else 1)) + rare:
+        out.append(finish(2, [7], 1, sd, (True, 1), None, 'mt', 0))
+        if sd in rare or sd % (10 if quick else 2) == 0:
+            out.append(finish(2, [7], 1, sd, (False, 1), None, 'mt', 0))
+            out.append(finish(2, [7, None], rng.choice([1, 2]), sd, (True, 2), None, 'mt', 0))
+            out.append(finish(2, [7], 2, sd, (True, 3), None, 'mt', 0))
+    for sd in rare:
+        for pc in (PARENTS.index('filter_one'), PARENTS.index('filter_head')):
+            for num in (1, 2):
+                both(rng, out, 2, list(range(12)), (pc, 3), sd, (True, num), [], 10.0, scr=False)
     # ---- sample
     fr_no = [0.0, 5e-324, 0.01, 0.3, 0.5, 0.99, ONE_MINUS, 1.0, 1.5, -0.5]
     fr_re = [0.0, 0.5, 1.0, 3.0, 0.01, 7.5, -1.0, -0.0]
